@@ -397,19 +397,25 @@ func (reader *DataReader) next() ([]byte, *DataPos, error) {
 		off := int64(reader.blockID) * blockSize
 		// 当前 block 起始位置已到达或超过文件末尾
 		if off >= fileSize {
-			return nil, nil, io.EOF
+			return nil, nil, reader.eof(cnt)
 		}
 		// 当前 block 实际大小
 		size := uint32(min(fileSize-off, blockSize))
 
 		if reader.offset >= size {
-			return nil, nil, io.EOF
+			return nil, nil, reader.eof(cnt)
 		}
 
 		// 从共享缓冲区中读取
 		_, err := reader.dataFile.ReadWriter.Read(reader.blockBuf[0:size], off)
 		if err != nil {
 			return nil, nil, err
+		}
+
+		// 全零的 chunk 头部不可能由写入产生(其校验和必不为零)
+		// 说明已到达预分配但尚未写入的区域(如未正常关闭的 mmap 文件), 视为文件逻辑末尾
+		if isZeroHeader(reader.blockBuf[reader.offset:size]) {
+			return nil, nil, reader.eof(cnt)
 		}
 
 		// 对当前 chunk 解码
@@ -436,6 +442,47 @@ func (reader *DataReader) next() ([]byte, *DataPos, error) {
 	pos.Size = cnt*chunkHeaderSize + uint32(len(res))
 
 	return res, pos, nil
+}
+
+// 已读取部分 chunk 后到达文件末尾, 说明最后一条记录不完整
+func (reader *DataReader) eof(readChunks uint32) error {
+	if readChunks > 0 {
+		return io.ErrUnexpectedEOF
+	}
+	return io.EOF
+}
+
+// 判断 block 剩余部分是否为预分配但尚未写入的区域
+// 写入是顺序进行的, 预分配区域之后不可能再出现数据, 故要求 block 剩余部分全部为零
+// 否则说明是数据损坏, 交由校验和检测
+func isZeroHeader(block []byte) bool {
+	if len(block) < chunkHeaderSize {
+		return false
+	}
+	for _, b := range block {
+		if b != 0 {
+			return false
+		}
+	}
+	return true
+}
+
+// TruncateTo 将文件逻辑末尾设置为 lastPos 指向的记录之后, lastPos 为 nil 时清空文件
+// 用于崩溃恢复时丢弃末尾不完整的记录, 保证后续追加的数据可被正确读取
+func (df *DataFile) TruncateTo(lastPos *DataPos) error {
+	var size int64
+	if lastPos != nil {
+		size = int64(lastPos.BlockID)*blockSize + int64(lastPos.Offset) + int64(lastPos.Size)
+	}
+	if size == df.Size() {
+		return nil
+	}
+	if err := df.ReadWriter.Truncate(size); err != nil {
+		return err
+	}
+	df.lastBlockID = uint32(size / blockSize)
+	df.lastBlockSize = uint32(size % blockSize)
+	return nil
 }
 
 func (df *DataFile) Size() int64 {
